@@ -4,7 +4,7 @@ import ast
 from ..program import AnalysisError, U, own_nodes, walk_no_nested
 from ..dataflow import ReachingDefs, defs_of_node
 from ..consteval import fold, module_consts
-from .common import (need, guards_of, calls_to, ext_calls, all_paths_pass, succs, normal_succs, path_conditions,
+from .common import (deep_origin, cond_forms, otext, need, guards_of, calls_to, ext_calls, all_paths_pass, succs, normal_succs, path_conditions,
                      is_param, interval_of, arg_of, default_of, INF, stores_in_package)
 
 PROPERTY = 'C10'
@@ -70,58 +70,64 @@ def gate(R):
     R._c10_cmp = None
     outer_methods = {}
     R._c10_outer = outer_methods
+    def chase(x, at):
+        methods = []
+        for _ in range(6):
+            methods += _methods(x)
+            inner = _strip_methods(x)
+            o = deep_origin(R, g, at, inner)
+            if U(o) == U(inner):
+                return inner, methods
+            x = o
+        return x, methods
+
     for r in rets:
         for l in path_conditions(R, g, rd, g.entry, r):
             status = upgrade = present = equal = False
-            for (a, b, eq, txt) in _eq_lit(l):
-                sides = [a, b]
-                texts = [U(x) for x in sides]
-                if '%s.status_code' % resp in texts and eq and 101 in [fold(R, x, g.ctx) for x in sides]:
+            for (tn, pol, forms) in l.groups:
+                e = tn.ast
+                neg = False
+                while isinstance(e, ast.UnaryOp) and isinstance(e.op, ast.Not):
+                    e = e.operand
+                    neg = not neg
+                if not (isinstance(e, ast.Compare) and len(e.ops) == 1 and isinstance(e.ops[0], (ast.Eq, ast.NotEq, ast.Is, ast.IsNot))):
+                    continue
+                eq = (isinstance(e.ops[0], (ast.Eq, ast.Is)) == pol) != neg
+                sides = [e.left, e.comparators[0]]
+                chased = [chase(x, tn) for x in sides]
+                origins = [c[0] for c in chased]
+                meths = [c[1] for c in chased]
+                vals = [fold(R, o, g.ctx) for o in origins]
+                txt = U(tn.ast)
+                if eq and 101 in vals and any(U(o) == '%s.status_code' % resp for o in origins):
                     status = True
-                vals = [fold(R, x, g.ctx) for x in sides]
-                # resolve names through their definitions
-                origins = []
-                for x in sides:
-                    tn = [n for n in g.live_nodes() if n.kind == 'test' and U(n.ast) == txt]
-                    o, at = x, (tn[0] if tn else None)
-                    for _ in range(6):
-                        inner = _strip_methods(o)
-                        if isinstance(inner, ast.Name) and at is not None:
-                            o2, at2 = rd.origin(at, inner)
-                            if o2 is inner:
-                                break
-                            # keep the method chain information of the outer expression
-                            outer_methods.setdefault(txt, []).extend(_methods(o))
-                            o, at = o2, at2
-                        else:
-                            break
-                    origins.append(o)
-                if 'websocket' in vals and eq:
-                    o = origins[1 - vals.index('websocket')]
-                    if _is_header_get(o, resp, 'upgrade') and _has_method(o, 'lower'):
+                if eq and 'websocket' in vals:
+                    i = 1 - vals.index('websocket')
+                    if _is_header_get(origins[i], resp, 'upgrade') and 'lower' in meths[i]:
                         upgrade = True
-                if eq is False and None in vals and any(_is_header_get(_strip_methods(o), resp, 'sec-websocket-accept')
-                                                        for o in origins):
+                if (not eq) and None in vals and any(_is_header_get(o, resp, 'sec-websocket-accept') for o in origins):
                     present = True
-                if eq and any(_is_header_get(_strip_methods(o), resp, 'sec-websocket-accept') for o in origins) \
-                        and any(_is_challenge(R, g, _strip_methods(o)) for o in origins):
+                if eq and any(_is_header_get(o, resp, 'sec-websocket-accept') for o in origins) \
+                        and any(_is_challenge(R, g, o) for o in origins):
                     equal = True
                     R._c10_cmp = (sides, origins, txt)
+                    outer_methods[txt] = meths[0] + meths[1]
             for name, okk in (('status == 101', status), ('Upgrade == websocket (case-folded)', upgrade),
                               ('Accept present', present), ('Accept == challenge', equal)):
                 R.ob('C10.gate', 'on_response returns only after: ' + name, okk,
-                     'a path returns normally without the test `%s`: %s' % (name, sorted(l)), func=f, node=r.ast,
+                     'a path returns normally without the test `%s`: %s' % (name, sorted(x[0] for x in l if x[1])[:6]), func=f, node=r.ast,
                      construct='on_response return without ' + name)
         # return value: (protocol, extensions)
         v = r.ast.value
         okr = isinstance(v, ast.Tuple) and len(v.elts) == 2
         if okr:
             p0 = rd.origin(r, v.elts[0])[0]
-            p1 = rd.origin(r, v.elts[1])[0]
+            p1, p1n = rd.origin(r, v.elts[1])
+            a0 = deep_origin(R, g, p1n, p1.args[0]) if isinstance(p1, ast.Call) and p1.args else None
             okr = _is_header_get(p0, resp, 'sec-websocket-protocol') and isinstance(p1, ast.Call) \
-                and R.types.resolves_to(p1, g.ctx, WS + '.process_extensions') and p1.args \
-                and isinstance(p1.args[0], ast.Call) and U(p1.args[0].func) == '%s.get_list' % resp \
-                and fold(R, p1.args[0].args[0], g.ctx) == 'sec-websocket-extensions'
+                and R.types.resolves_to(p1, g.ctx, WS + '.process_extensions') and a0 is not None \
+                and isinstance(a0, ast.Call) and U(a0.func) == '%s.get_list' % resp \
+                and fold(R, a0.args[0], g.ctx) == 'sec-websocket-extensions'
         R.ob('C10.gate', 'on_response returns (protocol header, enabled extensions)', okr,
              'on_response returns %s' % U(v), func=f, node=r.ast)
     esc = R.exc.escapes(g.ctx)
@@ -189,7 +195,7 @@ def gate(R):
         R.ob('C10.exact', 'Accept compared exactly', not norm,
              'the Sec-WebSocket-Accept comparison `%s` normalises its operands with %s(): base64 is case-sensitive, '
              'so digests differing only in letter case are accepted' % (txt, '/'.join(sorted(set(norm)))), func=f,
-             node=None, construct='accept comparison: ' + txt)
+             node=None, construct='accept comparison normalised with ' + '/'.join(sorted(set(norm))))
     else:
         R.ob('C10.exact', 'Accept compared exactly', False, 'no Accept == challenge comparison found', func=f, node=None,
              construct='accept comparison missing')
@@ -428,13 +434,17 @@ def limit(R, RID='C10.limit', recv='frame_parser.ClientFrameParser'):
     sends = [(n, c_) for n in g3.live_nodes() for c_ in n.calls
              if isinstance(c_.func, ast.Attribute) and c_.func.attr == 'send' and n in g3.succ_reach(fn, skip_edge=nx)
              and fn in g3.reachable([g3.entry], avoid=set())]
-    checks = calls_to(R, g3, 'parser.Parser.feed._check_length')
-    tests = [t for t in g3.live_nodes() if t.kind == 'test' and idx in U(t.ast) and '-1' in U(t.ast)]
-    need(len(tests) == 1, 'Parser.feed: `sep_index == -1` test not found')
-    t = tests[0]
-    eq = isinstance(t.ast.ops[0], ast.Eq)
-    nf = succs(t, 'true' if eq else 'false')
-    fo = succs(t, 'false' if eq else 'true')
+    from .common import header_end_checker, length_check_calls, found_polarity
+    lcc = length_check_calls(R, g3)
+    checks = [(n, c_) for (n, c_, t_) in lcc]
+    helpers = [t_ for (n, c_, t_) in lcc if t_ is not None]
+    tests = [(t, found_polarity(R, g3, t, idx)) for t in g3.live_nodes() if t.kind == 'test']
+    tests = [(t, lab) for (t, lab) in tests if lab is not None and idx in U(t.ast)]
+    need(len(tests) == 1, 'Parser.feed: test of the separator search result not found')
+    t, nflab = tests[0]
+    nf = succs(t, nflab)
+    fo = succs(t, 'false' if nflab == 'true' else 'true')
+    is_hdr_end = header_end_checker(R, g3, fn, idx)
     heads = [n for n in g3.live_nodes() if n.kind == 'loophead']
     cn = [n for (n, _) in checks]
     ok_nf = all_paths_pass(g3, nf, cn, heads + [g3.exit], skip_edge=nx)
@@ -450,8 +460,7 @@ def limit(R, RID='C10.limit', recv='frame_parser.ClientFrameParser'):
     for (n, c_) in checks:
         a = c_.args[0]
         if n in g3.reachable(fo, skip_edge=nx) and n not in g3.reachable(nf, avoid={t}, skip_edge=nx):
-            names = {x.id for x in walk_no_nested(a) if isinstance(x, ast.Name)}
-            R.ob(RID, 'found arm checks the header length', idx in names and 'len(' not in U(a),
+            R.ob(RID, 'found arm checks the header length', is_hdr_end(n, a),
                  'with the terminator found the check is applied to %s (frame bytes after the header in the same read '
                  'would count against the header limit)' % U(a), func=f3, node=c_)
         elif n in g3.reachable(nf, skip_edge=nx):
@@ -462,13 +471,17 @@ def limit(R, RID='C10.limit', recv='frame_parser.ClientFrameParser'):
                  g3.dominates(fn, n), 'the length check runs before the separator search on %s: bytes that follow a '
                  'complete header in the same read are counted against the header limit' % U(a), func=f3, node=c_)
     # closure: ParseError from check_length is thrown into the coroutine
-    q4 = q3 + '._check_length'
-    g4 = R.cfg(q4, recv)
-    thr = [(n, c_) for n in g4.live_nodes() for c_ in n.calls if isinstance(c_.func, ast.Attribute) and c_.func.attr == 'throw']
-    okt = len(thr) == 1 and any(fr.kind == 'handler' for fr in thr[0][0].frames)
+    if helpers:
+        q4 = helpers[0].func.qual
+        g4 = R.cfg(q4, helpers[0].recv)
+    else:
+        q4, g4 = q3, g3
+    thr = [(n, c_) for n in g4.live_nodes() for c_ in n.calls if isinstance(c_.func, ast.Attribute) and c_.func.attr == 'throw'
+           and any(fr.kind == 'handler' for fr in n.frames)]
+    okt = len(thr) >= 1
     esc = R.exc.escapes(g4.ctx)
     R.ob(RID, 'length failure reaches the caller as ParseError', okt and 'parser.ParseError' in esc,
-         '_check_length escapes: %s' % sorted(esc), func=q4, node=None, construct='_check_length throw')
+         'length-check escapes: %s' % sorted(esc), func=q4, node=None, construct='_check_length throw')
 
 
 def headers(R):
